@@ -397,6 +397,69 @@ def orbitframe_case(orientation, offcentre=False, home_name="EME2000", parent_ho
                      "parent -> frame -> parent is the identity for any state, and relative distances are preserved")
 
 
+def orbitframe_prop_case(orientation):
+    """the reference of the frame is an *orbit with a propagator*: given in MOD, while its propagator works in (and returns
+    states expressed in) EME2000 -- what KeplerNum does with every orbit that is not given in its own frame, and what an
+    ephemeris does after `ephem.frame = ...`.  The state the reference occupies at the date sits at the origin of the frame"""
+    ins = [(k, "real") for k in RV + XS] + [("psi", "angle", {"lo": "free"})]
+
+    def pre(v):
+        r = [v["rx"], v["ry"], v["rz"]]
+        vel = [v["vx"], v["vy"], v["vz"]]
+        h = [r[1] * vel[2] - r[2] * vel[1], r[2] * vel[0] - r[0] * vel[2], r[0] * vel[1] - r[1] * vel[0]]
+        return [h[0] * h[0] + h[1] * h[1] + h[2] * h[2] > 0]
+
+    def run(env, v):
+        name = f"vfp{next(_cnt)}"
+        if env.symbolic:
+            fr = env.mod("beyond.frames.frames")
+            for mname in ("beyond.utils.matrix", "beyond.frames.orient", "beyond.frames.center", "beyond.frames.local",
+                          "beyond.orbits.forms"):
+                env.mod(mname)
+            forms = importlib.import_module("beyond.orbits.forms")
+            iau = env.mod("beyond.frames.iau1980")
+            importlib.import_module("beyond.frames.orient").iau1980 = iau
+            iau.precesion = lambda date: mat(env).rot3(v["psi"])      # MOD <-> EME2000: an arbitrary rotation about z
+
+            class RefOrbit:
+                frame = fr.MOD                                       # the frame the user gave the orbit in
+                date = SymDate(0)
+
+                def propagate(self, date):                           # the propagator's own frame
+                    return carrier([v[k] for k in RV], date=date, frame=fr.EME2000, form=forms.CART)
+            ref_orb = RefOrbit()
+            new = fr.orbit2frame(name, ref_orb, orientation=orientation)
+            now = ref_orb.propagate(SymDate(0))
+            probe = carrier([v[k] for k in XS], date=SymDate(0), frame=fr.EME2000, form=forms.CART)
+            back = probe.copy(frame=new).copy(frame=fr.EME2000)
+            return {"own_state_at_origin": list(now.copy(frame=new)), "round_trip": [back[i] - probe[i] for i in range(6)]}
+        from beyond.frames import frames as fr
+        from beyond.orbits import StateVector
+        from beyond.dates import Date
+        d = Date(2020, 1, 1)
+        sc = lambda xs: [xs[0] * 1e6 + 7e6, xs[1] * 1e6, xs[2] * 1e6, xs[3] * 1e3, xs[4] * 1e3 + 7.5e3, xs[5] * 1e3]
+
+        class RefOrbit:
+            frame = fr.get_frame("ITRF")
+            date = d
+
+            def propagate(self, date):
+                return StateVector(sc([v[k] for k in RV]), date, "cartesian", "EME2000")
+        ref_orb = RefOrbit()
+        new = fr.orbit2frame(name, ref_orb, orientation=orientation, exists_warning=False)
+        probe = StateVector(sc([v[k] for k in XS]), d, "cartesian", "EME2000")
+        back = probe.copy(frame=new).copy(frame="EME2000")
+        own = ref_orb.propagate(d).copy(frame=new)
+        return {"own_state_at_origin": list(np.array(own) / 7e6), "round_trip": list((np.array(back) - np.array(probe)) / 7e6)}
+
+    def ref(env, v, out):
+        return {"own_state_at_origin": [0] * 6, "round_trip": [0] * 6}
+    return Case(f"orbit_frame/{orientation}/propagator_frame", ins, run, ref, pre=pre, timeout=120, tol=0, abs_tol=1e-7,
+                signature="orbit-attached frame: the propagated reference is taken to be expressed in the frame the orbit was given in",
+                desc=f"a frame attached (orientation {orientation}) to an orbit given in one frame whose propagator returns states in "
+                     "another: the propagated reference sits at the origin of the frame, parent -> frame -> parent is the identity")
+
+
 def orbitframe_kepl_case():
     """a frame attached to a state given in *keplerian* form (orientation of its own frame): the state, once expressed in
     cartesian coordinates, sits at the origin of its frame, and parent -> frame -> parent is the identity"""
@@ -506,7 +569,7 @@ def all_cases(tier):
             orbitframe_case("QSW"), orbitframe_case("TNW"), orbitframe_case(None),
             orbitframe_case(None, True), orbitframe_case("QSW", True), orbitframe_case("QSW", False, "MOD"),
             orbitframe_case("TNW", False, "MOD"), orbitframe_kepl_case(), orbitframe_kin_case("QSW"),
-            orbitframe_case("QSW", True, "EME2000", True)] + c02m.cases(tier)
+            orbitframe_case("QSW", True, "EME2000", True), orbitframe_prop_case(None), orbitframe_prop_case("QSW")] + c02m.cases(tier)
 
 
 def groups(tier):
